@@ -3,3 +3,6 @@ import Stevia.Model.Bytes
 import Stevia.Model.Tree
 import Stevia.Model.TreeLayout
 import Stevia.Model.TreeCheck
+import Stevia.Proofs.TreeDefs
+import Stevia.Proofs.TreeAvl
+import Stevia.Proofs.TreeLayoutRT
